@@ -260,4 +260,27 @@ def prePath (e : Env) (p : List Char) : PRes :=
       else if startsWith ['/'] p3 then .ok p3
       else .ok (joinPath e.workspace p3)
 
+/-! ## every path-carrying setting
+
+`Emmyrc::pre_process_emmyrc` sends `workspace.workspaceRoots`, `workspace.ignoreDir`, `resource.paths`
+through `process_and_dedup_string`, and `workspace.library` / `workspace.packages` through
+`process_and_dedup_workspace_path_items` (plain paths, or `{path, ignoreDir}` whose `ignoreDir`
+entries are expanded relative to the expanded `path`). -/
+
+/-- keep the first occurrence (`filter(|p| seen.insert(p.clone()))`) -/
+def dedupFirst : List (List Char) → List (List Char) → List (List Char)
+  | _, [] => []
+  | seen, x :: rest =>
+    if seen.contains x then dedupFirst seen rest else x :: dedupFirst (x :: seen) rest
+
+/-- `pre_process_path` over a list of strings (before the dedup) -/
+def prePaths (e : Env) (ps : List (List Char)) : List PRes := ps.map (prePath e)
+
+/-- `pre_process_workspace_path_item` for `Config { path, ignore_dir }` -/
+def preItemConfig (e : Env) (path : List Char) (dirs : List (List Char)) : PRes × List PRes :=
+  match prePath e path with
+  | .ok s => (.ok s, dirs.map (prePath { e with workspace := s }))
+  | .panic => (.panic, [])
+  | .unsupported => (.unsupported, [])
+
 end Json
